@@ -155,6 +155,15 @@ pub fn eval(ctx: &Ctx, case: &Case) {
             let pk = gm_sm2::key::Sm2PublicKey { point: lib_point(&pk_ref, &lam) };
             let sk = gm_sm2::key::Sm2PrivateKey { d: scalar(&d), public_key: pk.clone() };
             let tag = format!("key-object-Z={}", lambda);
+            // ZA through the public helper, for this representation of the point
+            ctx.call();
+            match guard(|| gm_sm2::util::compute_za(id_static.unwrap_or("1234567812345678"), &pk.point)) {
+                Guard::Done(Ok(z)) if z[..] == sm2::za(&id_bytes, &pk_ref)[..] => {}
+                other => {
+                    ctx.violation("gm_sm2::util::compute_za", &format!("ZA-mismatch/{}", tag), format!("d={} id={:?} -> {}", hexbig(&d), id, gdbg(&other.map(|r| r.map(hex::encode)))), cj());
+                    return;
+                }
+            }
             let Some((r0, s0)) = sm2::sign_with_k(&d, &e, &k) else { return };
             let mut want = cand(&r0).to_vec();
             want.extend_from_slice(&cand(&s0));
@@ -251,7 +260,7 @@ pub fn replay(ctx: &Arc<Ctx>, v: &Value) {
 pub fn run(ctx: &Arc<Ctx>) {
     refmodels::selftest::run(&["sm3", "sm2"]).unwrap_or_else(|e| ctx.machinery_error(format!("reference self-test failed: {}", e)));
     let n = sm2::params().n.clone();
-    ctx.set_rule("private keys d x nonces k (via the RNG seam) over {1,2,3,n-2,n-3,2^255,2^128-1,limb patterns,Annex,seeded} with two (ID,message) pairs, plus IDs {default, \"\", 1, 16, 8191 bytes, seeded} x message lengths {0,1,31,32,33,55,56,64,119,4096} x {zero, seeded} with two (d,k) pairs; key objects whose public point is affine or Jacobian with Z in {2, p-1, seeded} sign and verify identically; ID of 8192 bytes must be refused; GM/T 0003.5 Annex A exact; OpenSSL signature corpus. Per case: 64 bytes, r,s in [1,n-1], exact equality with the reference signature for the nonce the seam reports as accepted, reference verifier accepts, library verifier accepts its own and a reference-made signature.");
+    ctx.set_rule("private keys d x nonces k (via the RNG seam) over {1,2,3,n-2,n-3,2^255,2^128-1,limb patterns,Annex,seeded} with two (ID,message) pairs, plus IDs {default, \"\", 1, 16, 8191 bytes, seeded} x message lengths {0,1,31,32,33,55,56,64,119,4096} x {zero, seeded} with two (d,k) pairs; key objects whose public point is affine or Jacobian with Z in {2, p-1, seeded} sign and verify identically; ID of 8192 bytes must be refused; pre-searched messages whose digest e is >= n; GM/T 0003.5 Annex A exact; OpenSSL signature corpus. Per case: 64 bytes, r,s in [1,n-1], exact equality with the reference signature for the nonce the seam reports as accepted, reference verifier accepts, library verifier accepts its own and a reference-made signature.");
     // d in [1, n-2]: top element n-2; k in [1, n-1]: top element n-1
     let ds = scalar_alphabet(&n, ctx.seed, "c03d", 2);
     let ks = scalar_alphabet(&n, ctx.seed, "c03k", 1);
@@ -265,7 +274,7 @@ pub fn run(ctx: &Arc<Ctx>) {
             }
         }
     }
-    let ids: Vec<Option<String>> = vec![None, Some("".into()), Some("A".into()), Some("len:16".into()), Some("len:8191".into()), Some("len:37".into()), Some("1234567812345678".into()), Some("用户甲@例.cn".into()), Some("Zoë".into())];
+    let ids: Vec<Option<String>> = vec![None, Some("".into()), Some("A".into()), Some("len:16".into()), Some("len:8191".into()), Some("len:37".into()), Some("1234567812345678".into()), Some("用户甲@例.cn".into()), Some("Zoë".into()), Some("alice ".into()), Some("alice\n".into()), Some(" alice".into()), Some("ALICE".into()), Some("alice\0".into()), Some("alice".into())];
     let mlens = [0usize, 1, 31, 32, 33, 55, 56, 64, 119, 4096];
     let dks = [(hb(ANNEX_D), hb(ANNEX_K)), (ds.last().unwrap().1.clone(), ks.last().unwrap().1.clone())];
     for id in &ids {
@@ -300,6 +309,26 @@ pub fn run(ctx: &Arc<Ctx>) {
             let m = e["msg"].as_str().unwrap_or("").to_string();
             let kind = e["kind"].as_str().unwrap_or("small").to_string();
             cases.push(Case::Sign { d: ANNEX_D.into(), id: None, msg_len: m.len() / 2, msg_class: format!("hex:{}", m), k: ANNEX_K.into(), tag: format!("pre-searched/{}", kind) });
+        }
+    }
+    // pre-searched messages whose digest e = SM3(ZA || M) is >= n (top 32 bits all ones): e mod n differs from e
+    {
+        let big: Vec<Value> = std::fs::read_to_string(format!("{}/corpus/sm2_big_e.json", VERIF_ROOT)).ok().and_then(|t| serde_json::from_str::<Value>(&t).ok()).and_then(|v| v.as_array().cloned()).unwrap_or_default();
+        let mut ok = 0;
+        for e in &big {
+            let (d, m) = (e["d"].as_str().unwrap_or(""), e["msg"].as_str().unwrap_or(""));
+            let id = e["id"].as_str().map(|s| s.to_string());
+            let idb = id.as_ref().map(|s| s.as_bytes().to_vec()).unwrap_or_else(|| sm2::DEFAULT_ID.to_vec());
+            if sm2::digest_e(&idb, &sm2::g_mul(&hb(d)), &hex::decode(m).unwrap_or_default()) >= n {
+                ok += 1;
+                for k in [ANNEX_K.to_string(), hexbig(&ks[5].1)] {
+                    cases.push(Case::Sign { d: d.into(), id: id.clone(), msg_len: m.len() / 2, msg_class: format!("hex:{}", m), k, tag: "pre-searched/e>=n".into() });
+                }
+            }
+        }
+        ctx.cov("messages_with_digest_e_ge_n", json!(ok));
+        if ok == 0 {
+            ctx.machinery_error("corpus/sm2_big_e.json missing or not reproduced by the reference");
         }
     }
     for (d, k) in &dks {
